@@ -51,13 +51,16 @@ def interleave(tape, fixed, movable):
     return out
 
 
-def build_pair(tape, opts, max_msgs=6, apis=("deferred", "delegate")):
+def build_pair(tape, opts, max_msgs=6, apis=("deferred", "delegate"),
+               lazy_ok=False):
     """Two clients that share a code, each with a script of sends."""
     w = MailboxWorld(tape, opts)
     mode = tape.pick(("alloc_set", "set_set", "alloc_input"), "codemode")
     api_a = tape.pick(apis, "api_a")
     api_b = tape.pick(apis, "api_b")
-    a = w.add_client("A", api=api_a, versions={"v": "A"})
+    lazy_a = lazy_ok and api_a == "deferred" and tape.choose(4, "lazy") == 3
+    a = w.add_client("A", api=api_a, versions={"v": "A"},
+                     lazy_messages=lazy_a)
     b = w.add_client("B", api=api_b, versions={"v": "B"})
     if mode == "set_set":
         code = fixed_code(tape)
@@ -73,3 +76,131 @@ def build_pair(tape, opts, max_msgs=6, apis=("deferred", "delegate")):
     b.script = interleave(tape, cb, sb)
     w.mode = mode
     return w, a, b
+
+
+CONN_FAULTS = ("cut", "half_open", "server_restart", "refuse", "hang")
+MSG_FAULTS = ("mbox_dup", "mbox_reorder", "mbox_replay_stored")
+
+
+def short_op(op):
+    return [o if not isinstance(o, bytes) else "<%d bytes>" % len(o)
+            for o in op]
+
+
+def pick_faults(tape, w, kinds, max_budget=6):
+    w.fault_kinds = tuple(k for k in kinds if tape.choose(4, "fk") != 0)
+    w.fault_budget = tape.choose(max_budget + 1, "fbudget")
+
+
+def result(sim, w, violation, nontrivial, seed, extra_sample=None,
+           extra_stats=None):
+    sample = {"seed": seed, "mode": getattr(w, "mode", None),
+              "clients": [[c.name, c.api] for c in w.clients],
+              "scripts": {c.name: [short_op(o) for o in c.script]
+                          for c in w.clients},
+              "faults": [list(f) for f in w.faults_fired[:12]],
+              "closed": {c.name: repr(c.closed_results) for c in w.clients}}
+    if extra_sample:
+        sample.update(extra_sample)
+    stats = {"steps": sim.steps, "sim_s": sim.now() - 1000.0,
+             "notes": sim.notes}
+    if extra_stats:
+        stats["extra"] = extra_stats
+    return {"violation": violation, "nontrivial": bool(nontrivial),
+            "digest": sim.hexdigest(), "trace": sim.trace, "stats": stats,
+            "sample": sample}
+
+
+def reconnect_count(w):
+    return max(0, sum(1 for l in w.sim.net.links if l.mode == "message") -
+               len(w.clients))
+
+
+class EventOrderOracle:
+    """C18 / C09 'once each, causal order' over Client.events."""
+    ONCE = ("code", "key", "verifier", "versions")
+
+    def __init__(self, clients, versions_first=True):
+        self.clients = clients
+        self.pos = {c.name: 0 for c in clients}
+        self.seen = {c.name: {} for c in clients}
+        self.versions_first = versions_first
+        self.violation = None
+
+    def _v(self, key, clause, detail):
+        if self.violation is None:
+            self.violation = {"key": key, "clause": clause, "detail": detail}
+
+    def step(self):
+        if self.violation:
+            return
+        for c in self.clients:
+            evs = c.events
+            i = self.pos[c.name]
+            seen = self.seen[c.name]
+            while i < len(evs):
+                kind, val = evs[i]
+                i += 1
+                if kind.endswith("_err") or kind == "welcome":
+                    continue
+                if "closed" in seen:
+                    self._v("C18.after_closed", "nothing is delivered after "
+                            "closed", "%s got %s after closed" % (c.name, kind))
+                    return
+                if kind in self.ONCE:
+                    if kind in seen:
+                        self._v("C18.once." + kind, "each of code/key/verifier"
+                                "/versions occurs at most once",
+                                "%s got %s twice" % (c.name, kind))
+                        return
+                if kind == "closed" and "closed" in seen:
+                    self._v("C18.once.closed", "exactly one closed "
+                            "notification", "%s closed twice" % c.name)
+                    return
+                need = {"key": ("code",), "verifier": ("code", "key"),
+                        "versions": ("code", "key", "verifier"),
+                        "message": ("code", "key", "verifier")}.get(kind, ())
+                for n in need:
+                    if n not in seen:
+                        self._v("C18.order.%s_before_%s" % (kind, n),
+                                "events occur in the order code, key, verifier,"
+                                " then versions/messages",
+                                "%s got %s before %s" % (c.name, kind, n))
+                        return
+                if kind == "message" and self.versions_first and \
+                        "versions" not in seen:
+                    self._v("C18.order.message_before_versions",
+                            "with an order-preserving server the peer's "
+                            "versions precede every application message",
+                            "%s got a message before versions" % c.name)
+                    return
+                seen[kind] = seen.get(kind, 0) + 1
+            self.pos[c.name] = i
+
+
+class PrefixOracle:
+    """C03: received(X) is a prefix of sent(peer)."""
+
+    def __init__(self, a, b):
+        self.pairs = ((a, b), (b, a))
+        self.checked = {a.name: 0, b.name: 0}
+        self.violation = None
+
+    def step(self):
+        if self.violation:
+            return
+        for x, y in self.pairs:
+            n = len(x.received)
+            k = self.checked[x.name]
+            if n > k:
+                for i in range(k, n):
+                    if i >= len(y.sent) or x.received[i] != y.sent[i]:
+                        self.violation = {
+                            "key": "C03.prefix",
+                            "clause": "received sequence is a prefix of the "
+                                      "peer's sent sequence",
+                            "detail": "%s received[%d]=%r but %s sent=%r" % (
+                                x.name, i, x.received[i][:40], y.name,
+                                [m[:20] for m in y.sent])}
+                        return
+                self.checked[x.name] = n
